@@ -187,6 +187,44 @@ func restoreVsApply(root string) (bool, string) {
 	return true, fmt.Sprintf("node 2 state machine %v restores=%d", f2.Ops, f2.Restores)
 }
 
+// applyVsSnapshot: the snapshot loop wakes while applyLoop is inside a slow fsm.Apply(k).  The snapshot that is
+// taken afterwards must be labelled with what the state machine then contains; after a restart every operation is
+// in the state machine once.
+func applyVsSnapshot(root string) (bool, string) {
+	c := sim.NewCluster(root, []string{"0"}, 4, 2)
+	must(c.Open("0"))
+	must(c.Bootstrap("0", []string{"0"}))
+	must(c.Start("0"))
+	n := c.Nodes["0"]
+	elect(c, "0")
+	submit(c, "0", 1)
+	// operation 2 is being applied (slowly) when the snapshot loop is woken
+	n.FSM.Close("Apply")
+	submit(c, "0", 2)
+	n.FSM.Need = true
+	raft.VerifSnapshotTick(n.R)
+	quiet()
+	n.FSM.Open("Apply")
+	quiet()
+	n.FSM.Need = false
+	d := raft.VerifDump(n.R)
+	before := append([]uint64{}, n.FSM.Ops...)
+	c.Crash("0")
+	must(c.Open("0"))
+	must(c.Start("0"))
+	n = c.Nodes["0"]
+	elect(c, "0")
+	submit(c, "0", 3)
+	if o, bad := dup(n.FSM.Ops); bad {
+		return false, fmt.Sprintf("operation %d is in the state machine twice after restore+replay: %v (state machine before the restart %v; snapshot labelled index %d)",
+			o, n.FSM.Ops, before, d.LastIncludedIndex)
+	}
+	if len(n.FSM.Ops) != 3 {
+		return false, fmt.Sprintf("state machine after restart holds %v, expected operations 1 2 3", n.FSM.Ops)
+	}
+	return true, fmt.Sprintf("state machine after restart %v (snapshot labelled index %d)", n.FSM.Ops, d.LastIncludedIndex)
+}
+
 // localSnapshotVsInstall: a follower has received the first chunk of a two-chunk snapshot (file created) when it
 // starts a local snapshot of its own, older state (file created later, Snapshot call slow); the final chunk arrives
 // and the received snapshot is complete before the local one.  The node must end up with the received state.
@@ -301,16 +339,21 @@ func main() {
 		name string
 		f    func(string) (bool, string)
 	}{{"snapshot-vs-apply", snapshotVsApply}, {"restore-vs-apply", restoreVsApply},
-		{"local-snapshot-vs-install", localSnapshotVsInstall}} {
+		{"local-snapshot-vs-install", localSnapshotVsInstall}, {"apply-vs-snapshot", applyVsSnapshot}} {
 		ok, what := sc.f(root + "/" + sc.name)
 		if ok {
 			fmt.Printf("FSMRACE %s ok: %s\n", sc.name, what)
 		} else {
 			bad++
 			fmt.Printf("IMPL-VIOLATION C10 [%s] %s\n", sc.name, what)
+			// a node that stops applying with no further fault is also a liveness failure
+			fmt.Printf("IMPL-VIOLATION C15 [%s] %s\n", sc.name, what)
+			// ... and an operation applied twice or skipped breaks "every submission is applied at most once", with
+			// later futures returning results that match no linearization
+			fmt.Printf("IMPL-VIOLATION C03 [%s] %s\n", sc.name, what)
 		}
 	}
-	fmt.Printf("FSMRACE scenarios=3 violations=%d\n", bad)
+	fmt.Printf("FSMRACE scenarios=4 violations=%d\n", bad)
 	if bad > 0 {
 		os.Exit(1)
 	}
